@@ -44,9 +44,7 @@ declarations:
     brief: |-
       The label of the library,
       on two lines, the second of which is long and holds a tab character\tbetween two of its words.
-    description: |-
-      A description whose last line
-      has no line end.
+    description: "A description whose first line is long and holds a form feed character\\fbetween two of its words, and whose last line\\nhas no line end."
     return: |-
       the label,
       also on two lines
